@@ -207,13 +207,21 @@ func TestC10(t *testing.T) {
 					want = string(rune('0' + d))
 				}
 				c.Ev.EnumCase("codepoints", d >= 0 || (r >= 0x0900 && r <= 0x0A00), func() string { return fmt.Sprintf("U+%04X", r) }, "codepoint")
-				if got := utils.ConvertBanglaDigitsToASCII(in); got != want {
+				translit := func(x string) (out string) {
+					defer func() {
+						if rec := recover(); rec != nil {
+							out = fmt.Sprintf("<panic: %v>", rec)
+						}
+					}()
+					return utils.ConvertBanglaDigitsToASCII(x)
+				}
+				if got := translit(in); got != want {
 					s.Violation(Replay{Check: "translit", Sig: "translit", Source: in, Note: fmt.Sprintf("transliteration of U+%04X", r), Expected: want, Observed: got})
 				}
 				// embedded: must leave neighbours alone
 				in3 := "x" + in + "৭"
 				want3 := "x" + want + "7"
-				if got := utils.ConvertBanglaDigitsToASCII(in3); got != want3 {
+				if got := translit(in3); got != want3 {
 					s.Violation(Replay{Check: "translit", Sig: "translit", Source: in3, Note: fmt.Sprintf("transliteration around U+%04X", r), Expected: want3, Observed: got})
 				}
 				// classification: the code point starts a NUMBER iff it is one of the twenty digits
@@ -280,6 +288,7 @@ func TestC10(t *testing.T) {
 				"179769313486231570814527423731704356798070567525844996598917476803157260780028538760589558632766878171540458953514382464234321326889464182768467546703537516986049910576551282076245490090389328944075868508455133942304583236903222948165808559332123348274797826204144723168738177180919299881250404026184124858368",
 				"179769313486231580793728971405303415079934132710037826936173778980444968292764750946649017977587207096330286416692887910946555547851940402630657488671505820681908902000708383676273854845817711531764475730270069855571366959622842914819860834936475292719074168444365510704342711559699508093042880177904174497791",
 				"179769313486231580793728971405303415079934132710037826936173778980444968292764750946649017977587207096330286416692887910946555547851940402630657488671505820681908902000708383676273854845817711531764475730270069855571366959622842914819860834936475292719074168444365510704342711559699508093042880177904174497792",
+				strings.Repeat("0", 310) + "1.5", strings.Repeat("০", 310) + "১.৫", "০" + strings.Repeat("0", 320) + "7", "0" + strings.Repeat("০", 320) + "7", strings.Repeat("০", 50) + strings.Repeat("9", 308),
 				"0." + strings.Repeat("0", 323) + "2", "0." + strings.Repeat("0", 323) + "25", "0." + strings.Repeat("0", 330) + "1",
 			}
 			for _, sh := range shapes {
@@ -295,6 +304,11 @@ func TestC10(t *testing.T) {
 		c.Rapid("rand-literals", n, func(rt *rapid.T, s *Sub) {
 			var id, fd []int
 			cls := ""
+			lead := 0
+			if rapid.IntRange(0, 3).Draw(rt, "leadingZeros") == 0 {
+				// leading zeros (in either script) do not change the value, however many there are
+				lead = rapid.IntRange(1, 400).Draw(rt, "nlead")
+			}
 			switch rapid.IntRange(0, 5).Draw(rt, "family") {
 			case 0: // long random digits
 				cls = "long-random"
@@ -382,6 +396,10 @@ func TestC10(t *testing.T) {
 			}
 			if len(id) == 0 {
 				id = []int{0}
+			}
+			if lead > 0 {
+				id = append(make([]int, lead), id...)
+				cls += "/leading-zeros"
 			}
 			mask := rapid.Uint64().Draw(rt, "mask")
 			switch rapid.IntRange(0, 2).Draw(rt, "script") {
